@@ -230,3 +230,15 @@ func Harness_C14_locality_invariant() {
 		}
 	}
 }
+
+// Harness_C14_closure_chain: three nodes, three operations (internal edges only, symbolic statuses): long enough for
+// a status to propagate through two edges.
+func Harness_C14_closure_chain() {
+	c15SymbolicStatus = true
+	c15FlagCap = 1
+	nodes := []*Node{{kind: KindAlloc, number: 0}, {kind: KindAlloc, number: 1}, {kind: KindAlloc, number: 2}}
+	g := c15Build(nodes, 3)
+	c15FlagCap = 0
+	verifReach("chain-built")
+	c15Invariant(g, nodes, "chain:")
+}
